@@ -252,3 +252,10 @@ Example C03_ex_rollout :
   map (fun o => snd o) (firstn 7 (robserve (rcreate 3 2) ops)) =
     [None; None; None; None; None; Some [1; 3; 5; 2; 4; 6]; Some [1; 3; 5; 2; 4; 6]].
 Proof. split; reflexivity. Qed.
+
+(* a fresh buffer is all zeros (np.zeros allocation); unwritten rollout rows are zero rows; robserve (used by the harness only) flags the calls that raise *)
+Example C03_ex_fresh :
+  (exists b0, create false 4 1 false true = Some b0 /\ get b0 2 0 = (0, 0, 0, 0, 0) /\ a_next b0 1 0%nat = 0 /\ a_done b0 1 0%nat = 0 /\ a_to b0 3 0%nat = 0) /\
+  arr (rcreate 2 2) = [[0; 0]; [0; 0]] /\
+  map (fun o => fst (fst (fst (fst o)))) (robserve (rcreate 1 1) [RGet; RAdd [5]; RAdd [6]; RGet]) = [true; false; true; false].
+Proof. split; [eexists; repeat split; reflexivity|split; reflexivity]. Qed.
